@@ -43,6 +43,7 @@ type c11Inst struct {
 	work     time.Duration // simulated work inside PreStart
 	running  bool          // PreStart returned nil and PostStop not entered
 	stopped  bool
+	started  bool // PreStart returned nil at least once
 	prestart int
 }
 
@@ -89,6 +90,7 @@ func (in *c11Inst) preStart(ctx context.Context) error {
 		return err
 	}
 	in.running = true
+	in.started = true
 	st.live[in.name] = append(st.live[in.name], in.id)
 	st.s.Ev(Ev{Actor: in.name, Inc: in.id, Kind: "prestart-exit"})
 	if len(st.live[in.name]) > 1 && st.over == "" {
@@ -140,6 +142,7 @@ type c11Call struct {
 	call, ret int
 	pid       *actor.PID
 	err       error
+	inst      *c11Inst // spawn calls: the instance the caller brought
 }
 
 type c11OpPlan struct {
@@ -300,7 +303,7 @@ func c11Run(c *Ctx, withStops bool) {
 		if p.api == 3 {
 			in.name = fmt.Sprintf("anon%d", in.id) // every SpawnFromFunc has its own generated name
 		}
-		cl := &c11Call{kind: "spawn", name: in.name, api: api, ret: c10Inf}
+		cl := &c11Call{kind: "spawn", name: in.name, api: api, ret: c10Inf, inst: in}
 		calls = append(calls, cl)
 		cl.call = s.Ev(Ev{Actor: in.name, Inc: in.id, Kind: "spawn-call", From: t, Aux: fmt.Sprintf("%s ctx=%d/%v work=%v", api, p.ctxKind, p.ctxD, p.work)})
 		var pid *actor.PID
@@ -440,14 +443,50 @@ func c11Run(c *Ctx, withStops bool) {
 		who = append(who, "par")
 	}
 	if n := s.Sys.NumActors(); int(n) != running {
+		// Say what kind of mismatch it is, so that different defects can never share a signature:
+		// direction (counter too high / too low) and whether some running instance of a name is an
+		// "orphan", i.e. not the running PID registered under that name in the actors tree (the
+		// effect of a spawn that met the not-yet-reaped tree node of a stopped actor).
+		dir := "too-high"
+		if int(n) < running {
+			dir = "too-low"
+		}
+		perName := map[string]int{}
+		for _, in := range st.insts {
+			if in.running && !strings.HasPrefix(in.name, "anon") {
+				perName[in.name]++
+			}
+		}
+		orph := "no-orphans"
+		var orphans []string
+		for _, name := range names {
+			exists, isRunning := actor.VerifNameRegistered(s.Sys, name)
+			reg := 0
+			if exists && isRunning {
+				reg = 1
+			}
+			if perName[name] > reg {
+				orph = "orphans"
+				orphans = append(orphans, fmt.Sprintf("%s: %d running, tree node exists=%v running=%v", name, perName[name], exists, isRunning))
+			}
+		}
+		// spawns that goakt rolled back itself: the caller's instance was started (PreStart nil) and
+		// stopped again and the call returned an error (e.g. SpawnChild under a parent that stopped)
+		rolledBack := 0
+		for _, cl := range calls {
+			if cl.kind == "spawn" && cl.err != nil && cl.inst != nil && cl.inst.started && cl.inst.stopped {
+				rolledBack++
+			}
+		}
+		if orph == "no-orphans" && dir == "too-high" && rolledBack >= int(n)-running {
+			orph = "rolled-back-spawns"
+			orphans = append(orphans, fmt.Sprintf("%d spawn(s) were started and rolled back by goakt", rolledBack))
+		}
 		q := ":no-stop"
 		if len(st.stopIssued) > 0 {
-			q = ":after-stop"
+			q = ":after-stop" // some name was stopped (Kill, parent stop, passivation, supervisor stop) during the run
 		}
-		if st.failIssued {
-			q = ":after-supervisor-stop"
-		}
-		c.Fail("actor-count-mismatch", "NumActors"+q, "at quiescence NumActors()=%d but %d user actors are running %v; log tail: %s", n, running, who, s.Tail(30))
+		c.Fail("actor-count-mismatch", "NumActors:"+dir+":"+orph+q, "at quiescence NumActors()=%d but %d user actors are running %v; running instances not registered in the tree: %v; log tail: %s", n, running, who, orphans, s.Tail(30))
 	}
 	_ = s.Stop()
 }
